@@ -106,7 +106,17 @@ def gen_rule(rng, block, opcode, subblocks):
         if c < 0.55:
             ty, n = rng.choice(TYPES)
             pat.append({"p": "par", "name": name, "ty": ty, "n": n, "sub": ""})
-            if n % 8 == 0 and rng.random() < 0.2:
+            wid = rng.random()
+            if ty in ("s", "i") and wid < 0.12:
+                # the checked value is still the NUMBER it was: widened, a negative argument extends its sign
+                prod.append({"k": "sshort", "e": var(name), "n": numlit(str(n + 4))})
+                total += 4
+            elif ty in ("s", "i") and wid < 0.2:
+                # joined with something and read as a number again: the parameter contributes its n bits, no more
+                prod.append({"k": "sshort", "e": {"k": "bin", "op": "shr", "l": {"k": "bin", "op": "concat", "l": var(name), "r": numlit("0x0")},
+                                                  "r": numlit("2")}, "n": numlit(str(n + 4))})
+                total += 4
+            elif n % 8 == 0 and rng.random() < 0.2:
                 # the byte-swapped value used as a NUMBER (a negative signed argument is its bit pattern there)
                 prod.append({"k": "sshort", "e": {"k": "bin", "op": rng.choice(["shr", "shr", "div"]), "l": {"k": "call", "f": "le", "args": [var(name)]},
                                                   "r": numlit(rng.choice(["1", "2", "3"]))}, "n": numlit(str(n))})
@@ -226,6 +236,15 @@ def gen_isa(rng):
         for r_, o_ in pair:
             rules.append(r_)
             descr.append(o_)
+    if rng.random() < 0.15:
+        # twins: two rules with the same pattern whose encodings have the same size - and, for small operands, the same
+        # bits.  A line both match is ambiguous, whatever the bits
+        mn = rng.choice(["tw", "dup"])
+        lit = {"p": "lit", "lc": mn, "c0": mn[0], "nch": len(mn)}
+        for prod in (concat([numlit("0x10"), {"k": "sshort", "e": var("a"), "n": numlit("8")}]),
+                     concat([numlit("0x1"), {"k": "sshort", "e": var("a"), "n": numlit("12")}])):
+            rules.append({"block": "cpu", "sub": False, "pat": [lit, {"p": "ws"}, {"p": "par", "name": "a", "ty": "none", "n": 0, "sub": ""}], "prod": prod})
+            descr.append([("untyped", 8)])
     allrules = rules + [r for sb in subblocks for r in sb["rules"]]
     top = list(zip(rules, descr))
     return {"rules": allrules, "top": top, "subblocks": subblocks}
@@ -347,6 +366,12 @@ def instantiate(rng, rule, ops, labels, consts, hot=()):
             pending_ws = False
     if toks:
         toks[0]["b"] = True
+    if rng.random() < 0.04:
+        # the blank that the pattern writes in front of a punctuation mark left out (`adc#5' for `adc #{a}'): no match
+        cand = [i for i in range(1, len(toks)) if toks[i]["b"] and toks[i]["k"] == "op" and toks[i]["s"] in ("(", "[", "#")
+                and toks[i - 1]["k"] == "id"]
+        if cand:
+            toks[rng.choice(cand)]["b"] = False
     return toks
 
 
@@ -808,6 +833,16 @@ def gen_cascade_isa(rng):
                           _cmp("eq", _cmp("and", var("a"), numlit("1")), numlit("1")),
                           _cmp("eq", _cmp("and", var("a"), numlit("3")), numlit("2"))]),
                                                        "t": numlit("0x11"), "f": numlit("0x22")}])})
+    # a form whose size is not evident from the rule (branches of different widths), declared BEFORE a short form with
+    # a constraint: where both hold the short one is the encoding, whatever order they were written or tried in
+    if rng.random() < 0.3:
+        rules.append({"block": "cpu", "sub": False, "pat": [_lit("tz"), {"p": "ws"}, _par("a")],
+                      "prod": {"k": "tern", "c": _cmp("lt", var("a"), numlit(rng.choice(["0x80", "0x20"]))),
+                               "t": concat([numlit("0x31"), {"k": "sshort", "e": var("a"), "n": numlit("16")}]),
+                               "f": concat([numlit("0x32"), {"k": "sshort", "e": var("a"), "n": numlit("24")}])}})
+        rules.append({"block": "cpu", "sub": False, "pat": [_lit("tz"), {"p": "ws"}, _par("a")],
+                      "prod": {"k": "block", "es": [{"k": "call", "f": "assert", "args": [_cmp("lt", var("a"), numlit("0x10"))]},
+                                                    concat([numlit("0x4"), {"k": "sshort", "e": var("a"), "n": numlit("4")}])]}})
     # an operand that is a sub-rule with an expression parameter of its own
     if rng.random() < 0.6:
         rules.append({"block": "tgt", "sub": True, "pat": [_par("a", "u", 16)], "prod": var("a")})
@@ -872,7 +907,7 @@ def gen_cascade_program(rng, isa=None):
     if rng.random() < 0.15:
         # a constant that happens to be called pc: `pc` in an operand is still the address, and never known in advance
         items.append({"k": "const", "lvl": 0, "name": "pc", "e": {"k": "num", "text": list(str(rng.choice([0, 5, 0x77])))}})
-    casc = [m for m in isa["mnemonics"] if m in ("ld", "jmp", "br", "adds", "jr", "sel", "zj", "far")]
+    casc = [m for m in isa["mnemonics"] if m in ("ld", "jmp", "br", "adds", "jr", "sel", "zj", "far", "tz")]
     for i in range(rng.randrange(3, 16)):
         c = rng.random()
         if pending and c < 0.25:
@@ -1224,7 +1259,9 @@ def move_free_constant(rng, P):
     i = rng.choice(cands)
     Q = copy.deepcopy(P)
     it = Q["items"].pop(i)
-    if rng.random() < 0.5:
+    first = next((x for x in Q["items"] if x["k"] in ("label", "const")), None)
+    # (at the start it would become the parent of a nested symbol that the file - wrongly - begins with)
+    if rng.random() < 0.5 or (first is not None and first["lvl"] > 0):
         Q["items"].append(it)
     else:
         Q["items"].insert(0, it)
@@ -1266,6 +1303,9 @@ def gen_cond_program(rng):
             return {"k": "bin", "op": rng.choice(["eq", "lt"]), "l": {"k": "var", "lvl": 0, "path": [other]},
                     "r": {"k": "num", "text": list(str(rng.choice([0, 1, 2])))}}
         c = rng.random()
+        if c < 0.15:
+            # a literal that carries a width: a define replaces the VALUE - the width was the literal's, not the name's
+            return {"k": "num", "text": list(rng.choice(["0x00", "0x10", "0x05", "0b0101"]))}
         if c < 0.6:
             return {"k": "num", "text": list(str(rng.choice([0, 1, 2, 5, 16])))}
         if c < 0.72 and fns:
@@ -1398,10 +1438,31 @@ def gen_cond_program(rng):
             uses.append(_item(k="instr", toks=[tok("id", "tb", True), num_tok(rng, rng.randrange(0, 200), True, "dec")]))
         rng.shuffle(uses)
         items += uses
+    # a bank defined inside an arm, another one at the top level after it: each definition belongs to the name it was
+    # written with, whichever was declared first
+    banks = []
+    if rng.random() < 0.12:
+        banks = [{"unit": 8, "addr": 0x100, "size": 32, "outp": 0, "fill": False, "labelalign": 0},
+                 {"unit": 8, "addr": 0x200, "size": 64, "outp": 64, "fill": rng.random() < 0.5, "labelalign": 0}]
+        g = _item(k="if", e=cond())
+        inner = [_item(k="bankdef", n=1), mark(), _item(k="label", lvl=0, name="la")]
+        g["then"], g["else"], g["haselse"] = inner, [mark()], True
+        if rng.random() < 0.3:
+            g["then"], g["else"] = g["else"], g["then"]
+        items += [g, _item(k="bankdef", n=2), mark(), _item(k="label", lvl=0, name="lb"), mark()]
+        # (everything before them lives in a bank of its own: with banks defined nothing may use the default one)
+        banks.append({"unit": 8, "addr": 0, "size": 8 * 200, "outp": 1024, "fill": False, "labelalign": 0})
+        items.insert(0, _item(k="bankdef", n=3))
+    # the vocabulary constants as data, in a fixed width and in their own
+    if rng.random() < 0.4:
+        for _ in range(rng.randrange(1, 3)):
+            items.append(_item(k="data", w=rng.choice([8, 8, -1, 16]), es=[{"k": "var", "lvl": 0, "path": [rng.choice(INTS)]}]))
     # defines
     defines, argv = [], []
     for _ in range(rng.choice([0, 0, 1, 1, 2, 3])):
-        name = rng.choice(BOOLS + INTS + (["lab.N"] if hier else []) + (["NOSUCH"] if rng.random() < 0.15 else []))
+        # (a define that names a label names no constant: it is as unused as one that names nothing)
+        name = rng.choice(BOOLS + INTS + (["lab.N"] if hier else []) + (["NOSUCH"] if rng.random() < 0.15 else [])
+                          + (["somelabel"] if rng.random() < 0.1 else []) + ([f["name"] for f in fns] if rng.random() < 0.15 else []))
         if name in [d["name"] for d in defines]:
             continue
         want_bool = (name in BOOLS) != (rng.random() < 0.1)
@@ -1414,7 +1475,7 @@ def gen_cond_program(rng):
                 argv.append("-d%s=%s" % (name, "true" if b else "false"))
                 v = {"t": "bool", "v": 1 if b else 0}
         else:
-            n = rng.choice([0, 1, -1, 16, 2, 5])
+            n = rng.choice([0, 1, -1, 16, 2, 5, 300, 256, -129, 255])
             argv.append("-d%s=%s" % (name, rng.choice([str(n), hex(n) if n >= 0 else str(n)])))
             v = {"t": "int", "v": n}
         defines.append({"name": name, "v": {"t": v["t"], "v": v["v"], "s": -1, "cps": [], "enc": ""}})
@@ -1433,6 +1494,8 @@ def gen_cond_program(rng):
     P = {"rules": [], "items": norm(items), "defines": defines}
     if fns:
         P["fns"] = fns
+    if banks:
+        P["banks"] = banks
     return P, argv
 
 
@@ -1440,7 +1503,9 @@ def render_fns(P):
     return "".join("#fn %s(%s) => %s\n" % (f["name"], ", ".join(f["params"]), genexpr.render(f["body"])) for f in P.get("fns", []))
 
 
-def render_items(items, indent=""):
+def render_items(items, indent="", banks=None):
+    if banks is not None:
+        render_items.banks = banks
     out = []
     for it in items:
         k = it["k"]
@@ -1454,6 +1519,11 @@ def render_items(items, indent=""):
             out.append("%s#d%s %s\n" % (indent, "" if it["w"] < 0 else str(it["w"]), ", ".join(genexpr.render(e) for e in it["es"])))
         elif k == "instr":
             out.append("%s%s\n" % (indent, render_tokens(it["toks"])))
+        elif k == "bankdef":
+            b = render_items.banks[it["n"] - 1]
+            f = ["#bits %d" % b["unit"], "#addr 0x%x" % b["addr"], "#size 0x%x" % (b["size"] // b["unit"])] + (["#outp %d" % b["outp"]] if b["outp"] >= 0 else []) \
+                + (["#fill"] if b["fill"] else [])
+            out.append("%s#bankdef bank%d\n%s{\n%s    %s\n%s}\n" % (indent, it["n"], indent, indent, ("\n" + indent + "    ").join(f), indent))
         elif k == "ruledef":
             out.append("%s#ruledef\n%s{\n%s%s}\n" % (indent, indent, "".join(indent + render_rule(r) for r in it["rules"]), indent))
     return "".join(out)
@@ -1539,7 +1609,8 @@ def gen_macro_program(rng):
         # local variables assigned before the block: `{d}` then passes a value, not text
         assigns = []
         if rng.random() < 0.35:
-            for ln_ in ["d", "e"][:rng.choice([1, 1, 2])]:
+            # (now and then a local spelled like a parameter of the macros that call this one - not one of its own)
+            for ln_ in (["d", "e"] if ("b" in params or rng.random() < 0.6) else ["b", "d"])[:rng.choice([1, 1, 2])]:
                 src = rng.choice(params + [x["name"] for x in assigns])
                 c4 = rng.random()
                 if c4 < 0.4:
@@ -1626,6 +1697,20 @@ def gen_macro_program(rng):
                                                        "args": [{"k": "num", "text": list(str(rng.randrange(0, 9)))} for _ in f["params"]]}]))
         else:
             items.append(_item(k="data", w=8, es=[{"k": "num", "text": list(str(rng.randrange(0, 200)))}]))
+    if rng.random() < 0.12:
+        # a macro whose by-value local is spelled like a parameter of the macro that calls it: `{b}' inside `lo' is lo's
+        # own local, whatever the caller `hi' calls its second operand
+        rules.append({"block": "cpu", "sub": False, "pat": [_lit("em"), {"p": "ws"}, _par("x")],
+                      "prod": concat([numlit("0xe0"), {"k": "sshort", "e": var("x"), "n": numlit("8")}])})
+        rules.append({"block": "cpu", "sub": False, "pat": [_lit("lo"), {"p": "ws"}, _par("a")],
+                      "prod": {"k": "asm", "assigns": [{"name": "b", "e": _cmp("add", var("a"), numlit("16"))}],
+                               "lines": [{"k": "instr", "name": "", "toks": [tok("id", "em", True), ph("b", True)]}]}})
+        rules.append({"block": "cpu", "sub": False, "pat": [_lit("hi"), {"p": "ws"}, _par("a"), _lit(","), {"p": "ws"}, _par("b")],
+                      "prod": {"k": "asm", "assigns": [], "lines": [{"k": "instr", "name": "", "toks": [tok("id", "lo", True), ph("a", True)]},
+                                                                     {"k": "instr", "name": "", "toks": [tok("id", "em", True), ph("b", True)]}]}})
+        items.insert(rng.randrange(1, len(items) + 1),
+                     _item(k="instr", toks=[tok("id", "hi", True), num_tok(rng, rng.randrange(0, 100), True, "dec"), tok("op", ",", False),
+                                            num_tok(rng, rng.randrange(100, 200), True, "dec")]))
     if nested and rng.random() < 0.5:
         # a parameter spelled like a label that has children: `lab0.z0' in the production is the SYMBOL z0 under lab0 -
         # a dotted path is never a local variable
